@@ -1220,8 +1220,8 @@ def c10():
     for i, p in enumerate(own):
         if i % 2 and p["cfg"]["vol"].get("size", 1 << 40) <= (40 << 20):     # formatted over old data: every table copy must be initialised
             p["cfg"] = dict(p["cfg"], vol=dict(p["cfg"]["vol"], prefill=[0xD1, 0xFF, 0x01, 0xE5][i // 2 % 4]))
-        if i % 3 == 0:      # every legal media descriptor (0xF0 removable, 0xF8..0xFF): entry 0 of every copy repeats it
-            p["cfg"] = dict(p["cfg"], vol=dict(p["cfg"]["vol"], media=[0xF0, 0xF9, 0xFF, 0xF8, 0xF0][i // 3 % 5]))
+        if i % 2 == 0:      # every legal media descriptor (0xF0 removable, 0xF8..0xFF) on every width: entry 0 of every copy repeats it
+            p["cfg"] = dict(p["cfg"], vol=dict(p["cfg"]["vol"], media=[0xF0, 0xF9, 0xF0, 0xFF, 0xF8][(i // 2) % 5]))
     res.append(("own", core.campaign("own", own, wd)))
     core.finish("C10", LEVEL, res, None, t0,
                 "histories on builder volumes with 1, 2 and 3 table copies, mirroring on and off with each active copy, FAT32 high nibbles set in used and "
